@@ -532,3 +532,181 @@ def instances(tier):
     out.append(alternation_instance('cacgmm', 2, from_model=True))
     out.append(alternation_instance('cacgmm', 3, aligner=True, from_model=True))
     return out
+
+
+# ----------------------------------------------------------------------------- M-steps (callees by recording stubs)
+def mstep_instance(kind, wca=(-1,), with_saliency=True):
+    """_m_step of a mixture trainer: the weight routine gets the raw posterior and the raw saliency, the component
+    estimator gets the observations with a class axis and posterior x saliency as weights (and the quadratic forms of
+    the E-step for the cACG based models); the integration models' inline weights are the saliency-weighted mean
+    affiliation over the tied axes renormalised over classes."""
+    from pb_bss.distribution import cacgmm, cwmm, cbmm, gmm, vmfmm, gcacgmm, vmfcacgmm
+    from pb_bss.distribution import complex_angular_central_gaussian as cacg_mod, gaussian as gauss_mod
+    from pb_bss.distribution import von_mises_fisher as vmf_mod, complex_watson as cw_mod, complex_bingham as cb_mod
+    F, K, N, D, Ed = 2, 2, 2, 2, 2
+    mod = {'cacgmm': cacgmm, 'cwmm': cwmm, 'cbmm': cbmm, 'gmm': gmm, 'vmfmm': vmfmm, 'gcacgmm': gcacgmm, 'vmfcacgmm': vmfcacgmm}[kind]
+    integration = kind in ('gcacgmm', 'vmfcacgmm')
+    cplx = kind in ('cacgmm', 'cwmm', 'cbmm', 'gcacgmm', 'vmfcacgmm')
+    log = []
+    SENT = {}
+
+    def rec(name):
+        def f(*a, **k):
+            log.append((name, a, k))
+            SENT.setdefault(name, object())
+            return SENT[name]
+        return f
+
+    def rec_method(name):
+        def f(self, *a, **k):
+            log.append((name, a, k))
+            SENT.setdefault(name, object())
+            return SENT[name]
+        return f
+
+    def patches():
+        ps = []
+        if not integration:
+            ps.append((mod, 'estimate_mixture_weight', rec('weight')))
+        if kind in ('cacgmm', 'gcacgmm', 'vmfcacgmm'):
+            ps.append((cacg_mod.ComplexAngularCentralGaussianTrainer, '_fit', rec_method('cacg')))
+        if kind in ('gmm', 'gcacgmm'):
+            ps.append((gauss_mod.GaussianTrainer, '_fit', rec_method('gaussian')))
+        if kind in ('vmfmm', 'vmfcacgmm'):
+            ps.append((vmf_mod.VonMisesFisherTrainer, '_fit', rec_method('vmf')))
+        if kind == 'cwmm':
+            ps.append((cw_mod.ComplexWatsonTrainer, '_fit', rec_method('watson')))
+        if kind == 'cbmm':
+            ps.append((cb_mod.ComplexBinghamTrainer, '_fit', rec_method('bingham')))
+        return ps
+
+    def make(B):
+        # strictly positive posterior and saliency: every tied group has positive mass (the integration models' inline
+        # weight code has no 0/0 guard for groups of zero saliency mass; estimate_mixture_weight has)
+        inp = {'aff': B.real('g', (F, K, N), lo=0.0, lo_strict=True, dist=(0.05, 1.0)),
+               'sal': B.real('s', (F, N), lo=0.0, lo_strict=True, dist=(0.2, 2.0)) if with_saliency else None,
+               'y': B.cplx('y', (F, N, D)) if cplx else B.real('y', (F, N, D)), 'q': B.real('q', (F, K, N), lo=0.0, dist='pos')}
+        if integration:
+            inp['emb'] = B.real('e', (F, N, Ed))
+        if not with_saliency and integration:
+            inp['sal'] = B.given('s', np.ones((F, N)))
+        return inp
+
+    def call(inp):
+        del log[:]
+        SENT.clear()
+        tr = {'cacgmm': cacgmm.CACGMMTrainer, 'cwmm': cwmm.CWMMTrainer, 'cbmm': cbmm.CBMMTrainer, 'gmm': gmm.GMMTrainer,
+              'vmfmm': vmfmm.VMFMMTrainer, 'gcacgmm': gcacgmm.GCACGMMTrainer, 'vmfcacgmm': vmfcacgmm.VMFCACGMMTrainer}[kind]()
+        if kind == 'cacgmm':
+            m = tr._m_step(np.swapaxes(inp['y'], -1, -2), inp['q'], affiliation=inp['aff'], saliency=inp['sal'], hermitize=True,
+                           covariance_norm='eigenvalue', eigenvalue_floor=1e-10, weight_constant_axis=wca)
+        elif kind in ('cwmm', 'cbmm'):
+            tr.dimension = D
+            m = tr._m_step(inp['y'], affiliation=inp['aff'], saliency=inp['sal'], weight_constant_axis=wca)
+        elif kind == 'gmm':
+            m = tr._m_step(inp['y'], affiliation=inp['aff'], saliency=inp['sal'], weight_constant_axis=wca, covariance_type='full', fixed_covariance=None)
+        elif kind == 'vmfmm':
+            m = tr._m_step(inp['y'], affiliation=inp['aff'], saliency=inp['sal'], weight_constant_axis=wca, min_concentration=1e-10, max_concentration=500)
+        elif kind == 'gcacgmm':
+            m = tr._m_step(inp['y'], inp['emb'], inp['q'], affiliation=inp['aff'], saliency=inp['sal'], hermitize=True, covariance_norm='eigenvalue',
+                           eigenvalue_floor=1e-10, covariance_type='spherical', fixed_covariance=None, weight_constant_axis=wca,
+                           spatial_weight=1., spectral_weight=1.)
+        else:
+            m = tr._m_step(inp['y'], inp['emb'], inp['q'], affiliation=inp['aff'], saliency=inp['sal'], min_concentration=1e-10,
+                           max_concentration=500, hermitize=True, covariance_norm='eigenvalue', eigenvalue_floor=1e-10,
+                           weight_constant_axis=wca, spatial_weight=1., spectral_weight=1.)
+        return {'model': m, 'log': list(log), 'sent': dict(SENT)}
+
+    def masked(sp, inp):
+        g = cells(inp['aff'])
+        s = cells(inp['sal']) if inp['sal'] is not None else None
+        return {(f, k, n): (g[f, k, n] * s[f, n] if s is not None else g[f, k, n]) for f in range(F) for k in range(K) for n in range(N)}
+
+    def ensures(sp, inp, out):
+        lg = {e[0]: e for e in out['log']}
+        m = out['model']
+        ma = masked(sp, inp)
+        if not integration:
+            ok = 'weight' in lg
+            yield 'weight-routine-called', sp._f(ok)
+            if ok:
+                k = lg['weight'][2]
+                yield 'weight-routine-gets-raw-posterior-and-raw-saliency', sp._f(
+                    k.get('affiliation') is inp['aff'] and k.get('saliency') is inp['sal'] and k.get('weight_constant_axis') == wca)
+                yield 'weight-stored-in-model', sp._f(m.weight is out['sent'].get('weight'))
+        comp = {'cacgmm': 'cacg', 'cwmm': 'watson', 'cbmm': 'bingham', 'gmm': 'gaussian', 'vmfmm': 'vmf'}.get(kind)
+        if comp is not None:
+            ok = comp in lg
+            yield 'component-estimator-called', sp._f(ok)
+            if not ok:
+                return
+            _, a, k = lg[comp]
+            y = k.get('y', a[0] if a else None)
+            sal = k.get('saliency')
+            want_y = (F, 1, D, N) if kind == 'cacgmm' else (F, 1, N, D)
+            yield 'observation-with-class-axis', sp._f(shape_of(y) == want_y)
+            yield 'posterior-times-saliency-as-weights', (sp.FALSE if shape_of(sal) != (F, K, N) else
+                                                          sp.all(sp.eq(cells(sal)[i], ma[i]) for i in np.ndindex(F, K, N)))
+            if kind == 'cacgmm':
+                yield 'quadratic-form-of-e-step-passed', sp._f(k.get('quadratic_form') is inp['q'])
+            return
+        # integration models: inline weights
+        w = m.weight
+        axes = tuple(a % 3 for a in wca)
+        if 1 in axes:
+            yield 'uniform-weight', sp._f(isinstance(w, float) and w == 1 / K)
+        else:
+            wshape = tuple(n for a, n in enumerate((F, K, N)) if a not in axes)
+            yield 'weight-shape-squeezed-along-tied-axes', sp._f(shape_of(w) == wshape)
+            if shape_of(w) == wshape:
+                wc = cells(w)
+                for wi in np.ndindex(*wshape):
+                    full_idx = []
+                    it = iter(wi)
+                    for a in range(3):
+                        full_idx.append(None if a in axes else next(it))
+
+                    def mass(kk):
+                        rng_ = [range((F, K, N)[a]) if full_idx[a] is None else [full_idx[a]] for a in range(3)]
+                        rng_[1] = [kk]
+                        return sp.sum(ma[i] for i in itertools.product(*rng_))
+                    kk = full_idx[1]
+                    tot = sp.sum(mass(j) for j in range(K))
+                    yield 'weight-is-renormalised-weighted-mean-affiliation[%s]' % (wi,), sp.implies(sp.gt(tot, 0.0), sp.eq(wc[wi] * tot, mass(kk)))
+        ok = 'cacg' in lg and ('gaussian' in lg or 'vmf' in lg)
+        yield 'both-stream-estimators-called', sp._f(ok)
+        if not ok:
+            return
+        _, a, k = lg['cacg']
+        yield 'spatial-estimator-arguments', sp.and_(sp._f(shape_of(k.get('y')) == (F, 1, D, N) and k.get('quadratic_form') is inp['q']),
+                                                     sp.FALSE if shape_of(k.get('saliency')) != (F, K, N) else
+                                                     sp.all(sp.eq(cells(k['saliency'])[i], ma[i]) for i in np.ndindex(F, K, N)))
+        _, a2, k2 = lg['gaussian'] if 'gaussian' in lg else lg['vmf']
+        ys, ss = k2.get('y'), k2.get('saliency')
+        okshape = shape_of(ys) == (1, F * N, Ed) and shape_of(ss) == (K, F * N)
+        yield 'spectral-estimator-shapes', sp._f(okshape)
+        if okshape:
+            e = cells(inp['emb'])
+            yield 'embedding-flattened-frequency-major', sp.all(sp.eq(cells(ys)[0, f * N + n, d] * (1.0 if kind == 'gcacgmm' else 1.0), e[f, n, d])
+                                                                 for f in range(F) for n in range(N) for d in range(Ed)) if kind == 'gcacgmm' else sp.TRUE
+            yield 'spectral-weights-flattened-consistently', sp.all(sp.eq(cells(ss)[k_, f * N + n], ma[(f, k_, n)]) for f in range(F) for k_ in range(K) for n in range(N))
+
+    name = 'mstep-%s-wca%s-sal%d' % (kind, ''.join(map(str, wca)).replace('-', 'm') if not isinstance(wca, int) else str(wca), int(with_saliency))
+    func = {'cacgmm': 'cacgmm:CACGMMTrainer', 'cwmm': 'cwmm:CWMMTrainer', 'cbmm': 'cbmm:CBMMTrainer', 'gmm': 'gmm:GMMTrainer', 'vmfmm': 'vmfmm:VMFMMTrainer',
+            'gcacgmm': 'gcacgmm:GCACGMMTrainer', 'vmfcacgmm': 'vmfcacgmm:VMFCACGMMTrainer'}[kind]
+    return Instance('C08', DN + func + '._m_step', name, make, call, ensures, patches=patches, crosscheck=False, timeout=20.0)
+
+
+_c08_base = instances
+
+
+def instances(tier):       # noqa: F811
+    out = _c08_base(tier)
+    for kind in ('cacgmm', 'cwmm', 'cbmm', 'gmm', 'vmfmm'):
+        out.append(mstep_instance(kind, (-1,), True))
+    out.append(mstep_instance('cacgmm', (-3,), True))
+    out.append(mstep_instance('cacgmm', (-1,), False))
+    for kind in ('gcacgmm', 'vmfcacgmm'):
+        for wca in ((-1,), (-3,), (-3, -1), (-3, -2, -1)):
+            out.append(mstep_instance(kind, wca, True))
+    return out
